@@ -459,7 +459,7 @@ func TestVerif_C29_Limiter(t *testing.T) {
 	rec(nil, depth)
 	// (b) random
 	r := verifh.NewRand(verifh.Seed(), "c29lim")
-	for i := 0; i < verifh.Scale(1200, 40000); i++ {
+	for i := 0; i < verifh.Scale(1200, 15000); i++ {
 		c := c29LimRandom(r, tr)
 		if i < 2 {
 			tr.Sample(fmt.Sprint(c.Ops))
